@@ -297,6 +297,14 @@ func checkC36(c *Ctx, r *Report) {
 		// ---- parser shape
 		var compiles []*CallSite
 		compiles = append(compiles, callsInNamed(prs, "regexp.MustCompile", "regexp.Compile")...)
+		if len(compiles) == 0 {
+			// the pattern may be built by a helper method of the scheme that the parser calls
+			for _, cs := range callsIn(prs) {
+				if sf := cs.Instr.Common().StaticCallee(); sf != nil && sf.Pkg == prs.Pkg && recvTypeName(sf) == t {
+					compiles = append(compiles, callsInNamed(sf, "regexp.MustCompile", "regexp.Compile")...)
+				}
+			}
+		}
 		bpParam := prs.Params[1]
 		switch {
 		case len(compiles) == 1:
@@ -412,6 +420,34 @@ func checkC36(c *Ctx, r *Report) {
 						}
 						continue
 					}
+					// plain concatenation: capture, separator, capture, …
+					if _, isB := v.(*ssa.BinOp); isB {
+						var parts []ssa.Value
+						var flatS func(x ssa.Value)
+						flatS = func(x ssa.Value) {
+							if b, ok2 := x.(*ssa.BinOp); ok2 && b.Op == token.ADD {
+								flatS(b.X)
+								flatS(b.Y)
+								return
+							}
+							parts = append(parts, x)
+						}
+						flatS(v)
+						good := nparts > 0 && len(parts) == 2*nparts-1
+						for i := 0; good && i < len(parts); i++ {
+							if i%2 == 1 {
+								s, isS := constString(parts[i])
+								good = isS && s == splitSep
+								continue
+							}
+							gi, isM := matchIdx(parts[i])
+							good = isM && int64(groupOf[fmt.Sprintf("part%d", i/2)]) == gi
+						}
+						if !good {
+							ok, why = false, "the name is re-assembled by a concatenation that does not join the capture groups of the name's parts, in order, with the builder's separator"
+						}
+						continue
+					}
 					cl, isC := v.(*ssa.Call)
 					if !isC || calleeName(cl.Common()) != "fmt.Sprintf" {
 						ok, why = false, "unrecognised re-assembly of the name"
@@ -450,6 +486,24 @@ func checkC36(c *Ctx, r *Report) {
 					continue
 				}
 				n++
+				// strings.CutPrefix(bp, x): the remainder, on the side where it reported a match
+				if ex, isEx := unspill(ret.Results[0]).(*ssa.Extract); isEx && ex.Index == 0 {
+					if cp, isC := ex.Tuple.(*ssa.Call); isC && calleeName(cp.Common()) == "strings.CutPrefix" && cp.Call.Args[0] == ssa.Value(bpParam) {
+						found := guardedBy(ret, func(cond ssa.Value, val bool) int {
+							if e2, isE2 := cond.(*ssa.Extract); isE2 && e2.Index == 1 && e2.Tuple == ex.Tuple {
+								return tern(val, 1, -1)
+							}
+							return 0
+						})
+						if !found {
+							ok, why = false, "the remainder of CutPrefix is returned without testing that the prefix was found"
+						}
+						if !mentions(cp.Call.Args[1], func(v ssa.Value) bool { return isCallTo(v, "path.Join", "path.Clean") }, 6) {
+							ok, why = false, "the stripped prefix is not derived from the cleaned root"
+						}
+						continue
+					}
+				}
 				sl, isS := unspill(ret.Results[0]).(*ssa.Slice)
 				if !isS || sl.X != ssa.Value(bpParam) || sl.High != nil || sl.Low == nil {
 					ok, why = false, "the parser does not return a suffix of the path"
